@@ -140,23 +140,29 @@ def main():
                 c.sample({'model': m, 'params': [round(p, 4) for p in cs['ps']], 'regime': cs['regime'], 'steps': len(cs['rain']),
                           'sum_rain': sum(cs['rain']), 'sum_runoff': sum(ri[1][1] if m == 'Sacramento' else ri[1][0]),
                           'final_states': ri[2][:4]})
-        # mismatches: accept only if the measured sensitivity of the model to a 1e-14 relative
-        # perturbation of its inputs explains the difference (ill-conditioned case, see rrlib)
-        plines = []
+        # mismatches: accept only if the measured sensitivity of the model to small relative perturbations of its
+        # parameters, forcing and initial states (several runs, both signs, see rrlib) explains the difference
+        plines, spans = [], []
         for i, diff in retry:
             cs = cases[i]
-            ps2, rain2, pet2 = perturb_case(cs['model'], cs['ps'], cs['rain'], cs['pet'])
-            plines.append(kcase(cs['model'], ps2, cs['st0'], [rain2] if NINPUTS[cs['model']] == 1 else [rain2, pet2]))
+            pl = perturbed_lines(cs['model'], cs['ps'], cs['st0'], cs['rain'], cs['pet'])
+            spans.append((len(plines), len(plines) + len(pl)))
+            plines += pl
         pres = run_model(plines) if plines else []
-        for (i, diff), lp in zip(retry, pres):
+        for (i, diff), (a, b) in zip(retry, spans):
             cs = cases[i]
+            info = {}
             d2 = 'exact comparison required' if cs['model'] in EXACT else \
-                conditioned_agree(parse_kresult(impl[i]), parse_kresult(model[i]), parse_kresult(lp), *corr_tol(cs['model'], cs['ps'], cs['st0'], cs['rain']))
+                conditioned_agree(parse_kresult(impl[i]), parse_kresult(model[i]), [parse_kresult(l) for l in pres[a:b]],
+                                  *corr_tol(cs['model'], cs['ps'], cs['st0'], cs['rain']), info=info,
+                                  weights=perturbed_weights(cs['model'], cs['ps'], cs['st0'], cs['rain'], cs['pet']))
             if d2:
                 c.corr_broken.append({'case': [cs['model'], cs['ps'], cs['regime'], len(cs['rain']), cs['kind']], 'diff': diff,
                                       'conditioned': d2, 'line': lines[i][:4000]})
             else:
                 illcond[0] += 1
+                illcond[1] = max(illcond[1], info.get('amplification', 0.0))
+                illcond[2] += info.get('perturbed_runs', 0)
         # Sacramento: how many of these runs satisfy the hypotheses of C10_sacramento / _budget / _cumulative
         # (zero initial state, which satisfies the store invariant, and PET <= uztwm + lztwm every day)
         for cs in cases:
@@ -166,7 +172,7 @@ def main():
                     sacstat['within_theorems'] += 1
         return finals
 
-    illcond = [0]
+    illcond = [0, 0.0, 0]
     sacstat = {'runs': 0, 'within_theorems': 0}
     nmodel, nreg, nknown = {}, {}, {}
     finals = run_and_judge(cases, 's1')
@@ -192,8 +198,13 @@ def main():
         odd_panics += ri[0] != 'OK'
         diff = kresults_agree(ri, rm, *corr_tol(m, ps, st, rain))
         if diff and ri[0] == 'OK' and rm[0] == 'OK':
-            ps2, rain2, pet2 = perturb_case(m, ps, rain, pet)
-            diff = conditioned_agree(ri, rm, parse_kresult(run_model([kcase(m, ps2, st, [rain2, pet2])])[0]), *corr_tol(m, ps, st, rain))
+            info = {}
+            diff = conditioned_agree(ri, rm, [parse_kresult(l) for l in run_model(perturbed_lines(m, ps, st, rain, pet))],
+                                     *corr_tol(m, ps, st, rain), info=info, weights=perturbed_weights(m, ps, st, rain, pet))
+            if not diff:
+                illcond[0] += 1
+                illcond[1] = max(illcond[1], info.get('amplification', 0.0))
+                illcond[2] += info.get('perturbed_runs', 0)
         if diff:
             c.corr_broken.append({'case': ['malformed', m, ps, len(st), len(rain)], 'diff': diff, 'line': line[:4000]})
 
@@ -213,7 +224,7 @@ def main():
                      'plus prefix runs (stores observed in mid-run), hot starts from those model-produced states, the corpus witnesses of the three fixed Sacramento defects (regressions) and a small malformed stream (short / over-long state vectors, model-vs-code only); every case run through '
                      'sim.Catalog and through the extracted Coq kernel (GR4J: rtol 1e-9, atol 1e-12*scale; Sacramento, Simhyd, Surm: rtol 1e-12, atol 1e-15*scale, scale = 1+largest parameter/initial store/daily rain; RunoffCoefficient bit-exact) and judged by the '
                      'C10 oracle with tolerance 1e-9*(1+sum rain), the Sacramento whole-run budget incl. the final land stores with 1e-12*(1+sum rain+initial stores); non-trivial = T>0 and some rain; distinct = distinct (model, parameters, initial states, series)')
-    c.finish(extra_cov={'cases_per_model': nmodel, 'cases_per_regime': nreg, 'parameter_vectors': len(vecs), 'malformed_cases': len(odd), 'malformed_panics_impl': odd_panics, 'known_finding_cases': nknown, 'sacramento_theorem_coverage': sacstat, 'sacramento_uh_sum_classes': uhcls, 'sacramento_closed_budget_vectors': closed[0], 'ill_conditioned_cases_accepted': illcond[0], 'exhaustive': False},
+    c.finish(extra_cov={'cases_per_model': nmodel, 'cases_per_regime': nreg, 'parameter_vectors': len(vecs), 'malformed_cases': len(odd), 'malformed_panics_impl': odd_panics, 'known_finding_cases': nknown, 'sacramento_theorem_coverage': sacstat, 'sacramento_uh_sum_classes': uhcls, 'sacramento_closed_budget_vectors': closed[0], 'ill_conditioned_cases_accepted': illcond[0], 'ill_conditioned_max_amplification': illcond[1], 'ill_conditioned_perturbed_runs': illcond[2], 'exhaustive': False},
              assumptions=['theorems are over exact reals (RArith); float round-off is covered only by the tolerance oracle on the implementation outputs',
                           'OCaml libm stands in for Go libm (exp, pow, tanh) in the correspondence run: rtol 1e-9 for GR4J, 1e-12 for Sacramento/Simhyd/Surm (measured agreement 1e-14)',
                           'Sacramento theorems assume the store invariant on the initial state (true for InitialiseStates) and PET <= uztwm+lztwm every day; '
